@@ -42,8 +42,12 @@ def gen_body(g, r, nlocals, lower_mods, n, in_kernel=False, kernel_names=(), bad
         else:
             items.append(new_op(g))
     if bad:
-        k = r.below(3)
-        if k == 0 and lower_mods:
+        k = r.below(4)
+        private = [(j, p["name"]) for j in lower_mods for p in g.modules[j]["procs"] if not p["export"]]
+        if k == 3 and private:
+            j, nm = r.choice(private)
+            items.append((r.choice(["xi", "ci", "ri"]), j, nm))                           # exists, but is not exported
+        elif k == 0 and lower_mods:
             items.append((r.choice(["xi", "ci", "ri"]), r.choice(lower_mods), 999))     # no such procedure
         elif k == 1:
             items.append(("xi", 77, 1))                                                  # no such module
